@@ -38,6 +38,7 @@ def scenarios(tier):
     for sset in (('inet+unix', 'inet+reuse') if tier == 'quick' else SETS):
         for ref in ('cmd', 'args'):
             out.append(Scenario('sock', sset=sset, tier=tier, ref=ref))
+        out.append(Scenario('sock', sset=sset, tier=tier, ref='cmd', stdin=True))
     return out
 
 
@@ -110,9 +111,11 @@ def run(scn, ch):
             cmd, args = 'worker ' + ' '.join(refs), None
         else:
             cmd, args = 'worker', ' '.join(refs)          # the references live in `args`, not in `cmd`
-        world = World(ch, [WSpec('u', numprocesses=2, cmd=cmd, args=args, use_sockets=True, graceful_timeout=0.1),
+        extra = {'stdin_socket': SETS[scn.sset][0][0]} if scn.p.get('stdin') else {}
+        world = World(ch, [WSpec('u', numprocesses=2, cmd=cmd, args=args, use_sockets=True, graceful_timeout=0.1, **extra),
                            WSpec('p', numprocesses=1, cmd='plain', graceful_timeout=0.1)], sockets=socks)
         world.kernel.fd_snapshot = fd_table
+        world.kernel.probe_preexec = True      # a real forked child runs Process.spawn's preexec function
         world.judged_spawns = 0
         return world
 
@@ -139,7 +142,15 @@ def run(scn, ch):
             # inheritable descriptor unless close_fds, and pass_fds
             table = p.inherit_fds or {}
 
+            child = p.child_fds if isinstance(p.child_fds, dict) and 'error' not in p.child_fds else None
+            if p.child_fds is not None and child is None:
+                res.check('C07.preexec_runs', False, 'the pre-exec function failed in the child: %s' % p.child_fds,
+                          where='process.spawn.preexec')
+
             def reaches(fd):
+                if child is not None:
+                    # the descriptor table observed in a real forked child after the pre-exec function
+                    return fd in child
                 ent = table.get(fd)
                 return fd in p.pass_fds or (not p.close_fds and ent is not None and ent[0])
             if p.watcher == 'u':
@@ -162,13 +173,17 @@ def run(scn, ch):
                               lambda: 'descriptor %d (%s) named in the command line of worker %d does not survive process creation '
                               '(close_fds=%r, inheritable=%r, pass_fds=%r)' % (fd, name, p.pid - PID_BASE, p.close_fds, ent[0], p.pass_fds),
                               where='process.spawn')
+                    if child is not None and fd in child and not reuse and world.bound.get(name):
+                        res.check('C07.same_socket_in_child', tuple(child[fd][:2]) == tuple(world.bound[name][0]) and child[fd][3],
+                                  lambda: 'in the child, descriptor %d (named for %s) is %s, not the listening socket bound at start-up %s'
+                                  % (fd, name, child[fd], world.bound[name][0]), where='process.spawn.preexec')
                     if not reuse and world.bound.get(name):
                         res.check('C07.same_socket', ent[1] == world.bound[name][0],
                                   lambda: 'worker %d got a different socket for %s than the one bound at start-up (inode %s vs %s)'
                                   % (p.pid - PID_BASE, name, ent[1], world.bound[name][0]), where='process._get_sockets_fds',
                                   nontrivial=gen > 1 or world.judged_spawns > 0)
             else:
-                leaked = sorted(fd for fd in table if fd > 2 and reaches(fd))
+                leaked = sorted(fd for fd in (child if child is not None else table) if fd > 2 and reaches(fd))
                 res.check('C07.no_fd_without_use_sockets', not leaked,
                           lambda: 'worker %d of a watcher without use_sockets inherits daemon descriptors %s (close_fds=%r, '
                           'pass_fds=%r)' % (p.pid - PID_BASE, leaked, p.close_fds, p.pass_fds), where='process.spawn')
